@@ -124,6 +124,7 @@ type Viol struct {
 	Fingerprint string
 	Detail      string
 	Path        []string
+	OtherPath   []string // for relations between two paths (path independence): the earlier path
 }
 
 type Stats struct {
